@@ -16,7 +16,7 @@ def runLoop {σ ρ : Type} (body : σ → Ctl σ ρ) : Nat → σ → Option (P 
     | .panic m => some (.panic m)
 
 /-- what the translated `next()` returned, read as the model's `IterStep` -/
-def stepOfP : P (NodeIter × Option (Except Nat (Target × Node))) → IterStep
+def iterStepOfP : P (NodeIter × Option (Except Nat (Target × Node))) → IterStep
   | .val (it, r) => stepOfCtl (.ret it r)
   | .panic _ => .panic ""
 
@@ -62,7 +62,7 @@ theorem next_tie (s : Schema) (D : Nat) (fresh : Target)
     (hN : ∀ st, tcToGen (s.transcode (stateKeys st) fresh) = some (tcN st))
     (hU : ∀ st, tcUToGen (s.transcode (stateKeys st) .unit) = some (tcU st)) :
     ∀ (fuel : Nat) (it : IterSt), it.state.length = D →
-      (runLoop (NodeIter.next_body D tcN tcU) fuel (itToGen it)).map stepOfP =
+      (runLoop (NodeIter.next_body D tcN tcU) fuel (itToGen it)).map iterStepOfP =
         (it.next s D fresh fuel).map IterStep.erase := by
   intro fuel
   induction fuel with
@@ -83,7 +83,7 @@ theorem next_tie (s : Schema) (D : Nat) (fresh : Target)
       rwa [itToGen_ofGen] at this
     | ret it1 r =>
       rw [hc] at hb
-      simp only [Option.map_some, stepOfP]
+      simp only [Option.map_some, iterStepOfP]
       cases hs : it.step s D fresh with
       | retry it' => rw [hs] at hb; cases r with
         | none => simp [stepOfCtl, IterStep.erase] at hb
@@ -93,7 +93,7 @@ theorem next_tie (s : Schema) (D : Nat) (fresh : Target)
       | panic m => rw [hs] at hb; simp only [Option.map_some, hb]
     | panic m =>
       rw [hc] at hb
-      simp only [Option.map_some, stepOfP]
+      simp only [Option.map_some, iterStepOfP]
       cases hs : it.step s D fresh with
       | retry it' => rw [hs] at hb; simp [stepOfCtl, IterStep.erase] at hb
       | done => rw [hs] at hb; simp [stepOfCtl, IterStep.erase] at hb
@@ -292,7 +292,7 @@ theorem poll_tie (s : Schema) (D : Nat) (fresh : Target)
         | none => simp [hm] at ht
         | some x =>
           rw [hm] at ht
-          simp only [Option.map_some, stepOfP, Option.some.injEq] at ht
+          simp only [Option.map_some, iterStepOfP, Option.some.injEq] at ht
           obtain ⟨m', rfl⟩ := erase_eq_panic ht.symm
           rfl
       | val p =>
@@ -302,7 +302,7 @@ theorem poll_tie (s : Schema) (D : Nat) (fresh : Target)
         | none => simp [hm] at ht
         | some x =>
           rw [hm] at ht
-          simp only [Option.map_some, stepOfP, Option.some.injEq] at ht
+          simp only [Option.map_some, iterStepOfP, Option.some.injEq] at ht
           cases r1 with
           | none =>
             simp only [stepOfCtl] at ht
